@@ -10,6 +10,7 @@ import (
 	"fmt"
 	"os"
 	"runtime"
+	"strings"
 	"sync"
 	"syscall"
 	"time"
@@ -68,6 +69,9 @@ func next(kind string) inputValue {
 	defer mu.Unlock()
 	if !loaded {
 		panic("zzverif: no replay assignment loaded (harnesses only run under gosymx or the replay driver)")
+	}
+	for pos < len(rf.Inputs) && rf.Inputs[pos].Kind == "choose" && strings.HasPrefix(rf.Inputs[pos].Label, "inject:") {
+		pos++ // scheduling entries are consumed by the yield hook, not by the harness
 	}
 	if pos >= len(rf.Inputs) {
 		// The executor stopped creating inputs here (its path ended at a failure).
@@ -286,3 +290,7 @@ func PreemptBudget(n int) {}
 // PreemptPoint marks a place where a modelled blocking operation (e.g. a network write)
 // may let another goroutine run (symbolic scheduler only).
 func PreemptPoint() {}
+
+// SpawnBudget allows the symbolic scheduler to start up to n new goroutines at once, before
+// their creator continues (no native counterpart).
+func SpawnBudget(n int) {}
